@@ -12,5 +12,6 @@ CONSTANTS
   RecFinishRenameFirst = FALSE
   Async = FALSE
   RotateDropsBuffer = FALSE
+  RotateInflight = FALSE
 INVARIANTS Report
 CHECK_DEADLOCK FALSE
